@@ -263,6 +263,13 @@ func (r *Run) Violation(caseIdx int, sig, what string, witness any) {
 	if err := os.WriteFile(path, b, 0o644); err == nil && v.Replay == "" {
 		v.Replay = path
 	}
+	// Journal entry: lets the driver report this violation even if the process later hangs until the
+	// watchdog or crashes before result.json is written.
+	if f, err := os.OpenFile(filepath.Join(r.outDir, "violations.jsonl"), os.O_CREATE|os.O_WRONLY|os.O_APPEND, 0o644); err == nil {
+		line, _ := json.Marshal(map[string]any{"sig": sig, "what": what, "case": caseIdx, "replay": path})
+		_, _ = f.Write(append(line, '\n'))
+		_ = f.Close()
+	}
 }
 
 func trunc(s string, n int) string {
